@@ -568,10 +568,13 @@ impl LogReader {
 
         // Parse the payload
         let serialized_block = [header_buffer.to_vec(), data_buffer].concat();
-        let block_record: BlockRecord = BlockRecord::try_from(&serialized_block)?;
+        // The bytes have been consumed from the file whether or not they parse, so account for
+        // them first. Otherwise a fragment with a bad checksum leaves the reader misaligned with
+        // the block structure of the rest of the file.
         self.current_cursor_position += header_buffer.len() + data_bytes_read;
         self.current_block_offset =
             (self.current_block_offset + data_bytes_read) % BLOCK_SIZE_BYTES;
+        let block_record: BlockRecord = BlockRecord::try_from(&serialized_block)?;
 
         Ok(block_record)
     }
